@@ -288,12 +288,11 @@ func c17Check(r *ev.Result, dir string, entries []c17Entry, minimalOnly bool) {
 		if nil != rerr {
 			ev.Broken("reference filter failed: %s", rerr)
 		}
-		want2, _ := c17Reference(entries, t, false)
 		cs := c17Case{Entries: entries, Table: t, Form: "dir"}
 		switch {
 		case nil != err:
 			c17AddFail("conversion-failed", fmt.Sprintf("table %q, tree %v: conversion failed: %v", c17TableNames[t], c17Desc(entries), err), entries, t)
-		case !bytes.Equal(got, want1) && !bytes.Equal(got, want2):
+		case !bytes.Equal(got, want1):
 			c17AddFail("payload-differs", fmt.Sprintf("table %q, tree %v: payload %q, want %q", c17TableNames[t], c17Desc(entries), got, want1), entries, t)
 		case nil != err2 || !bytes.Equal(got, got2):
 			r.Violate(ev.Violation{
@@ -520,7 +519,7 @@ func c17(r *ev.Result, tier string) {
 	r.Distinct += nm
 	r.Set("mapfs_cases", nm)
 	r.Assume("per-file conversion (FromPerl/FromShell) is used as a black box here; FromPerl itself is C16's subject")
-	r.Assume("symlinks to regular files may be included or omitted (the statement says 'regular files' and is silent on links); an empty conversion contributes nothing")
+	r.Assume("'regular file' is read as stat(2) reads it: a symlink to a regular file counts (that is what the quantifier's 'valid symlinks' are for); an empty conversion contributes nothing")
 }
 
 func c17Replay(kind string, raw json.RawMessage) int {
@@ -542,11 +541,6 @@ func c17Replay(kind string, raw json.RawMessage) int {
 	want, _ := c17Reference(c.Entries, c.Table, true)
 	fmt.Printf("tree   %s\ntable  %s\ngot    %q err=%v\nwant   %q\n", c17Desc(c.Entries), c17TableNames[c.Table], got, err, want)
 	if nil != err || !bytes.Equal(got, want) {
-		want2, _ := c17Reference(c.Entries, c.Table, false)
-		if nil == err && bytes.Equal(got, want2) {
-			fmt.Println("equal to the reference without links: accepted")
-			return 0
-		}
 		fmt.Println("reproduced")
 		return 1
 	}
